@@ -551,7 +551,9 @@ def override_histories(ctx, r, n):
 def add_category_tuples(ctx, db, aff, r, n):
     from barril.units import Array, FixedArray, FractionScalar, Scalar
 
-    pool = {"length": ["m", "cm", "km", "ft"], "temperature": ["K", "degC", "degF"], "time": ["s", "min", "h"]}
+    # (unit lists may name a unit in a legacy spelling - '1000ft3/d' is 'Mcf/d' - and need not contain the type's base unit)
+    pool = {"length": ["m", "cm", "km", "ft"], "temperature": ["K", "degC", "degF"], "time": ["s", "min", "h"], "volume flow rate": ["1000ft3/d", "Mm3/d", "m3/s", "1000m3/d", "Mcf/d", "bbl/d"],
+            "mass per mol": ["lb/lbmole", "g/mol", "kg/mol"]}  # fmt: skip
     made = []
     for k in range(n):
         qt = r.choice(list(pool))
